@@ -264,3 +264,148 @@ Definition chain_ok (i : chain_in) (o : chain_out) : bool :=
   | None, _ => true
   end.
 Definition chain_judge := judge chain_model chain_oeqb chain_ok (fun _ => 0%N).
+
+(* ---- part life: ONE long-lived set of processors (one per oracle, as commit.Plugin keeps them) over several report
+   cycles; between the rounds the environment moves: RMNRemote signer set / F / version / digest / addresses on chain,
+   the RMNHome node set, the off-ramp address, the leader's bundle (signed by current, removed, future, foreign or
+   mixed keys, over the report of the agreed, an earlier or the on-chain config). One judged case per round.
+   The model is memoryless in all of those: it is evaluated on the round's CURRENT inputs; the only state carried is
+   the digest each oracle's RMN controller is connected with (read from the controller fake = environment).
+   input: as chain, with the scripted crypto answer replaced by the signature table of the round (toy_verify), and
+          (leader index, connected digest per oracle before the round, init failure code, RMNHome node set now).
+   output: leader (code, query, controller request and the RMN config handed over, InitConnection call); then if a
+           query exists: per oracle (code, recorded verify call, returned observation, InitConnection call),
+           validity per oracle, outcome if called; connected digest per oracle after the round *)
+Require Import Verif.Model.C05Life.
+Definition life_x := (N * list N * N * N * sig_table)%type.
+Definition life_in :=
+  (bool * N * N * outcome * cfg_detail * N * option N * list (N * N) * leader * roots_side *
+   list seq_chain * list seq_chain * rmn_cfg * bool * option cons * life_x)%type.
+Definition llead_out := (N * option query * option (list lane_req * rmn_cfg) * option init_call)%type.
+Definition obs1_out := (N * option verify_call * obs * option init_call)%type.
+Definition life_out := (llead_out * option (list obs1_out * list bool * option outcome) * list N)%type.
+
+Fixpoint set_nth {A} (k : nat) (x : A) (l : list A) : list A :=
+  match l, k with
+  | [], _ => []
+  | _ :: t, O => x :: t
+  | h :: t, S k' => h :: set_nth k' x t
+  end.
+Definition count_true (l : list bool) : N := N.of_nat (length (filter (fun b => b) l)).
+
+Definition life_model (i : life_in) : life_out :=
+  let '(enabled, max, n, prev, d, dest, offr, onr, lead, rs, won, woff, wcfg, wf, co, (lidx, conn, ifail, nodes, tab)) := i in
+  let e := mkREnv offr ifail nodes (world_of prev rs onr won woff wcfg wf) in
+  let detail_of := fun _ : rmn_cfg => d in
+  let cl := nth (N.to_nat lidx) conn 0%N in
+  let '(qr, reqs, linit, cl') :=
+      match lead with
+      | LHonest ctrl => leader_query detail_of enabled prev cl e (fun k => alookup k onr) ctrl
+      | LByz q => (Ok q, None, None, cl)
+      end in
+  let conn1 := set_nth (N.to_nat lidx) cl' conn in
+  let reqs' := option_map (fun r => (r, o_cfg prev)) reqs in
+  match qr with
+  | Ok q =>
+      let per := map (fun c => oracle_obs (toy_verify tab) detail_of enabled dest prev c e q) conn1 in
+      let outs := map (fun x => let '((r, o), call, ic, _) := x in (res_code r, call, o, ic)) per in
+      let vs := map (fun x => let '((_, o), _, _, _) := x in validate_retry q o) per in
+      let conn2 := map (fun x => let '(_, _, _, c') := x in c') per in
+      ((0%N, Some q, reqs', linit),
+       Some (outs, vs, if N.leb 3 (count_true vs) then Some (get_outcome max n prev q co) else None), conn2)
+  | _ => ((1%N, None, reqs', linit), None, conn1)
+  end.
+
+Definition icall_eqb : init_call -> init_call -> bool := pair_eqb N.eqb N.eqb.
+Definition llead_eqb (a b : llead_out) : bool :=
+  let '(c, q, r, ic) := a in let '(c', q', r', ic') := b in
+  N.eqb c c' && option_eqb query_eqb q q' && option_eqb (pair_eqb (list_eqb req_eqb) cfg_eqb) r r' &&
+  option_eqb icall_eqb ic ic'.
+Definition obs1_eqb (a b : obs1_out) : bool :=
+  let '(c, cl, o, ic) := a in let '(c', cl', o', ic') := b in
+  N.eqb c c' && option_eqb call_eqb cl cl' && obs_eqb o o' && option_eqb icall_eqb ic ic'.
+Definition life_oeqb (a b : life_out) : bool :=
+  let '(l, r, c) := a in let '(l', r', c') := b in
+  llead_eqb l l' &&
+  option_eqb (fun x y => let '(o, v, oc) := x in let '(o', v', oc') := y in
+                         list_eqb obs1_eqb o o' && list_eqb Bool.eqb v v' && option_eqb outcome_eqb oc oc') r r' &&
+  list_eqb N.eqb c c'.
+
+Definition roots_nil (l : list root) : bool := match l with [] => true | _ => false end.
+
+(* the C05 clauses on the implementation's round; everything is stated against THIS round's previous outcome *)
+Definition life_ok (i : life_in) (o : life_out) : bool :=
+  let '(enabled, max, n, prev, d, dest, offr, onr, lead, rs, won, woff, wcfg, wf, co, (lidx, conn, ifail, nodes, tab)) := i in
+  let '((lc, lq, lreq, linit), rest, conn2) := o in
+  let st := next_state (o_type prev) in
+  let building := state_eqb st Building in
+  let cfg_e := cfg_is_empty (o_cfg prev) in
+  (* InitConnection only with the digest of this round's previous outcome and the node set RMNHome shows now *)
+  let icall_ok (ic : option init_call) :=
+      match ic with
+      | Some (dg, nd) => enabled && negb cfg_e && N.eqb dg (cd_digest d) && N.eqb nd nodes
+      | None => true
+      end in
+  negb (N.eqb lc 2) && icall_ok linit &&
+  (* the controller connection moves only to this round's digest *)
+  list_eqb (fun c c' => N.eqb c' c || (enabled && negb cfg_e && N.eqb c' (cd_digest d))) conn conn2 &&
+  (* honest leader: the controller is asked for exactly the previous outcome's ranges and handed exactly the
+     previous outcome's RMN config; a bundle comes only from the controller; a timeout gives the retry query *)
+  (match lead, lq with
+   | LHonest ctrl, Some q =>
+       match lreq with
+       | Some (reqs, ccfg) => enabled && building && cfg_eqb ccfg (o_cfg prev) &&
+                      option_eqb (list_eqb req_eqb) (query_requests (o_ranges prev) (fun k => alookup k onr)) (Some reqs) &&
+                      match ctrl with
+                      | CtrlSigs b => query_eqb q (mkQuery false (Some b))
+                      | CtrlTimeout => query_eqb q (mkQuery true None)
+                      | CtrlErr => false
+                      end
+       | None => query_eqb q (mkQuery false None)
+       end
+   | _, _ => true
+   end) &&
+  match lq, rest with
+  | Some q, Some (outs, valid, out) =>
+      (* what verifyQuery has to hand to the crypto oracle in this round, and whether the bundle is valid for it *)
+      let exp_call := match q_sigs q, offr with Some b, Some offa => expected_call d dest offa b | _, _ => None end in
+      let exp_valid := match exp_call with Some c => toy_verify tab c | None => false end in
+      N.eqb (N.of_nat (length outs)) 4 &&
+      forallb (fun x : obs1_out =>
+        let '(oc, call, ob, ic) := x in
+        negb (N.eqb oc 2) && icall_ok ic &&
+        (if N.eqb oc 1 then obs_is_empty ob else true) &&
+        (if building && q_retry q then obs_is_empty ob else true) &&
+        (if building then true else roots_nil (ob_roots ob)) &&
+        (* whatever is verified is verified against the signer set and report of THIS round's previous outcome *)
+        (match call with Some c => option_eqb call_eqb exp_call (Some c) | None => true end) &&
+        (* RMN on: roots are observed only under a bundle that the oracle verified and that is valid for the agreed config *)
+        (if enabled && negb (roots_nil (ob_roots ob)) then is_some call && exp_valid else true) &&
+        (if enabled && building && negb (q_retry q) && N.eqb oc 0 then is_some call && exp_valid && negb cfg_e else true) &&
+        (* a bundle in any other round is refused; a refused signature check is an error *)
+        (if enabled && negb building && is_some (q_sigs q) then N.eqb oc 1 else true) &&
+        (match call with Some c => if toy_verify tab c then true else N.eqb oc 1 | None => true end) &&
+        (* selecting round: the RMN remote config observed is the one on chain now *)
+        (if state_eqb st Selecting && N.eqb oc 0 then cfg_eqb (ob_cfg ob) wcfg else true)) outs &&
+      match out with
+      | None => true
+      | Some oo =>
+          let fresh_roots := building && negb (outcome_eqb oo prev) && negb (roots_nil (o_roots oo)) in
+          (if enabled && fresh_roots
+           then exp_valid &&
+                match exp_call with
+                | Some (sigs, (_, _, _, _, _, lanes), _) =>
+                    forallb (fun r => existsb (root_eqb r) lanes) (o_roots oo) && list_eqb N.eqb (o_sigs oo) sigs
+                | None => false
+                end &&
+                N.leb 3 (N.of_nat (length (filter (fun x : obs1_out => let '(oc, call, _, _) := x in N.eqb oc 0 && is_some call) outs)))
+           else true) &&
+          (* the RMN config (F_rmn of the report) of a report is the one of the previous outcome *)
+          (if fresh_roots then cfg_eqb (o_cfg oo) (o_cfg prev) else true) &&
+          (if building && q_retry q then outcome_eqb oo prev else true) &&
+          (match o_roots oo with [] => match o_sigs oo with [] => true | _ => false end | _ => true end)
+      end
+  | Some _, None => false
+  | None, _ => true
+  end.
+Definition life_judge := judge life_model life_oeqb life_ok (fun _ => 0%N).
